@@ -75,7 +75,7 @@ Definition interp_default (f : fty) (d : dtext) : fvalue :=
   | FInt _, TNum z => VI z
   | FEnum _ _, TIdent s => VE s
   | FBits _, TBin s => bits_of (bin_bits s) d
-  | FBits _, THex s => bits_of (hex_bits s) d
+  | FBits _, THex s => bits_of (option_map strip_trailing_false (hex_bits s)) d   (* as the library: trailing 0 bits dropped *)
   | FOctets _, TBin s =>
     match bin_bits s with Some bs => VBytesV (pack (pad_to 8 bs)) | None => VRaw d end
   | FOctets _, THex s =>
@@ -216,7 +216,7 @@ Definition lib_default (cv : cvariant) (syntactic : sty) (f : fty) (d : dtext) :
     end
   | VRaw (THex s) =>
     match f with
-    | FBits _ => bits_of (hex_bits s) d
+    | FBits _ => bits_of (option_map strip_trailing_false (hex_bits s)) d
     | FOctets _ =>
       match hex_bits (if Nat.odd (String.length s) then (s ++ "0")%string else s) with
       | Some bs => VBytesV (pack bs) | None => VRaw d end
